@@ -7,6 +7,7 @@ mod monitors;
 mod ops;
 mod props;
 mod props_custom;
+mod rewardworld;
 mod rng;
 mod setup;
 mod snap;
